@@ -296,7 +296,16 @@ def _mk_args_stream(shape):
     def ens(ctx, st, ret):
         return [("one.argument.list.per.chunk.of.the.shortest.stream", I(st.yields) == st.total)]
 
-    return Contract("C11.streamable._args_stream[%s]" % shape, target=_as_target, setup=setup,
+    def concretize(model, ctx, st, oid):
+        """the model's plain arguments and chunk counts (capped at 4) on the real generator; chunk j of stream i is the pair (i, j)"""
+        ev = lambda t: model.eval(t, model_completion=True).as_long()
+        n = {i: max(1, min(ev(st.n[i]), 4)) for i in idx}
+        args = tuple(iter([(i, j) for j in range(n[i])]) if ch == "S" else ("plain", i, ev(st.plain[i])) for i, ch in enumerate(shape))
+        got = [list(a) for a in _as_target()(args, list(idx))]
+        want = [[(i, j) if ch == "S" else args[i] for i, ch in enumerate(shape)] for j in range(min(n.values()))]
+        return {"reproduced": got != want, "input": {"shape": shape, "chunks per stream": n}, "yielded": repr(got)[:600], "expected": repr(want)[:600]}
+
+    return Contract("C11.streamable._args_stream[%s]" % shape, target=_as_target, setup=setup, concretize=concretize,
                     requires=lambda ctx, st: [n >= 0 for n in st.n.values()], ensures=ens, generator=GeneratorSpec(on_yield),
                     canaries=[("chunks written to the leading slots", "zip(stream_indices, stream_args)", "enumerate(stream_args)")] if shape[0] != "S" or "xS" in shape else [])
 
